@@ -440,3 +440,58 @@ class Reshape(Contract):
 
     def canaries(self, S, case, env, result):
         yield "result-is-empty", S.shape(result.values)[0] == 0
+
+
+class UnflattenSeveralGroups(Contract):
+    """BOUNDED STAND-IN ONLY (never counted as proved).  An array carrying TWO grouped dimensions at once (reshape('a,b', 'c,d') of
+    a 4-d array, or two successive flatten calls): unflatten() restores every member axis -- dims (a, b, c, d), the member
+    labels, every element at its label coordinates --, unflatten(axis=one group) ungroups that one only, and reshape to the
+    plain dimensions does the same.  (The symbolic Unflatten contract has one grouped dimension per array.)  Member labels of
+    length 1-2.  [C11]"""
+    target = "dimarray.core.reshape:unflatten"
+    props = ("C11",)
+    native_only = True
+
+    def cases(self, tier):
+        for how in ("reshape", "two-flattens"):
+            for then in ("unflatten-all", "unflatten-first", "unflatten-second", "reshape-plain"):
+                yield {"name": "%s-%s" % (how, then), "how": how, "then": then}
+
+    def setup(self, S, case):
+        from .common import assume_order
+        Ls = [S.array1d("l%d" % i, ("f", "O", "f", "O")[i]) for i in range(4)]
+        for L in Ls:
+            assume_order(S, L, "unique")
+            S.assume(S.n(L) >= 1, "non-empty")
+            S.assume(S.n(L) <= 2, "at most two labels per member (four members)")
+        return {"Ls": Ls}
+
+    def call(self, fn, env):
+        import numpy as np
+        S, case = env["S"], env["case"]
+        labs = [np.asarray(L) for L in env["Ls"]]
+        shape = tuple(len(L) for L in labs)
+        v = S.da.DimArray(np.arange(int(np.prod(shape)), dtype=float).reshape(shape) + 0.5, axes=[(n, L.copy()) for n, L in zip("abcd", labs)])
+        g = v.reshape("a,b", "c,d") if case["how"] == "reshape" else v.flatten(("a", "b")).flatten(("c", "d"))
+        env.update({"v": v, "g": g, "labs": labs})
+        t = case["then"]
+        if t == "unflatten-all":
+            return g.unflatten()
+        if t == "unflatten-first":
+            return g.unflatten(axis="a,b")
+        if t == "unflatten-second":
+            return g.unflatten(axis="c,d")
+        return g.reshape("a", "b", "c", "d")
+
+    def post(self, S, case, env, result):
+        import numpy as np
+        v, g, t = env["v"], env["g"], case["then"]
+        yield "two-grouped-dimensions-to-start-with", tuple(g.dims) == ("a,b", "c,d")
+        want = {"unflatten-all": ("a", "b", "c", "d"), "reshape-plain": ("a", "b", "c", "d"), "unflatten-first": ("a", "b", "c,d"), "unflatten-second": ("a,b", "c", "d")}[t]
+        ok = S.is_dimarray(result) and tuple(result.dims) == want
+        yield "dims-are-the-member-dimensions-of-what-was-ungrouped", ok
+        if not ok:
+            return
+        full = result if len(want) == 4 else result.unflatten()
+        yield "every-element-at-its-label-coordinates", tuple(full.dims) == ("a", "b", "c", "d") and full.values.shape == v.values.shape and bool(np.all(full.values == v.values)) and \
+            all(list(r.values) == list(o.values) for r, o in zip(full.axes, v.axes))
